@@ -70,6 +70,11 @@ class Report:
     def anchor_missing(self, what):
         self.violation("anchor-missing", what, "anchor not found: %s" % what)
 
+    def violations_unlisted(self):
+        """violations that are not open known findings"""
+        open_keys = {k["key"] for k in load_known() if k["property"] == self.pid and k.get("status") == "open"}
+        return [v for v in self.violations if v["key"] not in open_keys]
+
     # --- finishing
     def finish(self):
         known = [k for k in load_known() if k["property"] == self.pid]
